@@ -89,6 +89,12 @@ func hashCall(which string, img image.Image) (string, []any) {
 		case "p256":
 			h, err := imagehash.NewPHash256(img)
 			d = fmt.Sprintf("%016x err=%v", [4]uint64(h), err)
+		case "ahash":
+			h, err := imagehash.NewAHash(img)
+			d = fmt.Sprintf("%v err=%v", h, err)
+		case "blur":
+			h, err := imagehash.EncodeBlurHashFast(img)
+			d = fmt.Sprintf("%s err=%v", h, err)
 		default:
 			h, err := imagehash.NewPHash256Alt(img)
 			d = fmt.Sprintf("%016x err=%v", [4]uint64(h), err)
@@ -408,7 +414,7 @@ func genCase(rt *rapid.T) Case {
 			}
 			c.Steps = append(c.Steps, Step{Op: "decode", Entry: entry, In: in})
 		case k == 6:
-			c.Steps = append(c.Steps, Step{Op: "hash", Img: rapid.IntRange(0, len(c.Images)-1).Draw(rt, "img"), Hash: rapid.SampledFrom([]string{"p64", "p64alt", "p256", "p256alt"}).Draw(rt, "hash")})
+			c.Steps = append(c.Steps, Step{Op: "hash", Img: rapid.IntRange(0, len(c.Images)-1).Draw(rt, "img"), Hash: rapid.SampledFrom([]string{"p64", "p64alt", "p256", "p256alt", "ahash", "blur"}).Draw(rt, "hash")})
 		case k <= 8:
 			st := Step{Op: "poison", Fill: rapid.SampledFrom([]byte{0xA5, 0x00, 0xFF, '0', ':', '+', 0x20}).Draw(rt, "fill"), N: rapid.IntRange(1, 4).Draw(rt, "pn"),
 				Len: uint32(rapid.SampledFrom([]int{0, 1, 2, 40, 83, 84}).Draw(rt, "plen")), Pos: uint32(rapid.SampledFrom([]int{0, 1, 2, 39, 83}).Draw(rt, "ppos"))}
